@@ -503,6 +503,7 @@ def assemble(template_path, repo):
             if opts.get('rename'):
                 text = re.sub(r'\bfn\s+' + re.escape(name) + r'\b', 'fn ' + opts['rename'], text, count=1)
             text = splice_fn(fid_out, text, sections, opts)
+            meta.setdefault('_spliced', {})[fid_out] = (text, rel, src.count('\n', 0, s) + 1, hashlib.sha256(raw.encode()).hexdigest(), name)
             start = cur_line
             emit(text + '\n')
             meta['functions'].append({
@@ -514,9 +515,34 @@ def assemble(template_path, repo):
             })
             meta['regions'].append({'id': fid_out, 'kind': 'fn', 'start': start, 'end': cur_line - 1,
                                     'canary': 'canary' in opts})
+        elif cmd == 'dupfn':
+            # //@dupfn <fn id> rename=<new> serves=.. [known] ;; <regex> ==> <repl> ;; ...
+            head, *rws = arg.split(' ;; ')
+            a = head.split()
+            src_id = a[0]
+            opts = {}
+            for o in a[1:]:
+                k, _, v = o.partition('=')
+                opts[k] = v
+            if src_id not in meta.get('_spliced', {}):
+                raise TemplateError('dupfn: %s not assembled before' % src_id)
+            text, rel, line, sha, name = meta['_spliced'][src_id]
+            text = apply_rewrites(text, [parse_rw(r) for r in rws], meta['rewrites'], src_id + ' (dup)')
+            text = re.sub(r'\bfn\s+' + re.escape(name) + r'\b', 'fn ' + opts['rename'], text, count=1)
+            owner = src_id.rsplit('::', 1)[0] if '::' in src_id else None
+            fid_out = (owner + '::' + opts['rename']) if owner else opts['rename']
+            start = cur_line
+            emit(text + '\n')
+            meta['functions'].append({'id': fid_out, 'source_fn': src_id, 'file': rel, 'line': line, 'sha256': sha,
+                                      'serves': [x for x in opts.get('serves', '').split(',') if x],
+                                      'canary': 'canary' in opts, 'known': 'known' in opts, 'clauses': 0})
+            meta['regions'].append({'id': fid_out, 'kind': 'fn', 'start': start, 'end': cur_line - 1,
+                                    'canary': 'canary' in opts, 'known': 'known' in opts})
+            i += 1
         else:
             raise TemplateError('unknown directive: ' + st)
     text = ''.join(out)
+    meta.pop('_spliced', None)
     if meta.get('nopub'):
         # single-crate unit: everything private (same line structure, so regions stay valid)
         text = re.sub(r'\bpub(\([^)]*\))?\s+(?!assume_specification)(open\s+|closed\s+)?', '', text)
